@@ -306,6 +306,12 @@ def cond_facts(fn, cid, truth):
     t = fn.term(cid)
     if t[0] == "const":
         return set()
+    if k in CALLS and (t[0] == "op" or (t[0] == "un" and t[1] == "!")):
+        # a call that is read as the expression it returns (single-return helper): the expression's own facts
+        from .prove import term_cond_facts
+        fs = term_cond_facts(t, truth)
+        if fs:
+            return fs
     return {("true" if truth else "false", t)}
 
 
@@ -569,6 +575,22 @@ class Engine:
             out.add(f)
         return out
 
+    def _iterator_range_facts(self, v, it, facts):
+        """v = std::distance(R.begin(), p) where p was obtained by a search over [R.begin(), R.end()): 0 <= v <= R.size()."""
+        if not (it[0] == "call" and it[1] == "std::distance" and len(it[3]) == 2):
+            return set()
+        b, p = it[3]
+        if not (b[0] == "call" and b[1].split("::")[-1] in ("begin", "cbegin") and b[2] is not None):
+            return set()
+        R = b[2]
+        for f in facts:
+            if f[0] == "==" and p in (f[1], f[2]):
+                src = f[2] if f[1] == p else f[1]
+                if src[0] == "call" and src[1] in ("std::find_if", "std::find", "std::find_if_not", "std::lower_bound", "std::upper_bound", "std::adjacent_find") \
+                        and len(src[3]) >= 2 and src[3][0][0] == "call" and src[3][0][2] == R and src[3][1][0] == "call" and src[3][1][2] == R:
+                    return {("<=", v, ("size", R)), ("<=", ("const", 0), v)}
+        return set()
+
     def _search_refusal_events(self, cf, ldefs):
         """`it = find_if(R.begin(), R.end(), pred); if (it != R.end()) throw` (or `if (any_of(...)) throw`), on the branch
         that goes on: every element failed the predicate - the same per-element refusal a loop `for (x : R) if (pred(x)) throw`
@@ -696,6 +718,7 @@ class Engine:
                     it = fn.term(d["init"])
                     if it[0] not in ("?", "ctor", "initlist", "lambda") and not mentions(it, v):
                         facts = facts | {norm_cmp("==", v, it)}
+                        facts = facts | self._iterator_range_facts(v, it, facts)
                     elif it[0] == "ctor" and it[1] and it[1].startswith("std::vector") and len(it[2]) >= 1 \
                             and fn.n(fn.strip(d["init"])).get("list_init") is False:
                         n0 = fn.n(fn.strip(d["init"]))
